@@ -108,6 +108,8 @@ type c18Case struct {
 	Off  int    `json:"off,omitempty"`
 	Val  byte   `json:"val,omitempty"`
 	Seed uint64 `json:"seed"`
+	// restart: the new session already reports the stations captured during the history as captured
+	KeepCapture bool `json:"keep_capture,omitempty"`
 }
 
 func genAckOnly(t *rapid.T) dhcpHistory {
@@ -201,7 +203,20 @@ func c18Restart(tb drv.TB, rec *drv.Rec, sub string, c c18Case) {
 		rec.Violation(tb, sub, "c18-file-content", c, "lease file after the last ACK holds %v, acknowledged bindings are %v", inFile, want)
 		return
 	}
-	env, loaded, rewritten, p, sig, st, err := c18Load(c.Hist.Cfg, file)
+	cfg2 := c.Hist.Cfg
+	capturedMAC := map[int]bool{}
+	if c.KeepCapture {
+		for _, op := range c.Hist.Ops {
+			if op.K == "capture" {
+				m := dClients[op.C%dN].mac
+				if !capturedMAC[m] {
+					capturedMAC[m] = true
+					cfg2.Pre = append(cfg2.Pre, m)
+				}
+			}
+		}
+	}
+	env, loaded, rewritten, p, sig, st, err := c18Load(cfg2, file)
 	if p != nil {
 		rec.Violation(tb, sub, "c18-restart-"+sig, c, "New panicked on an intact lease file: %v\n%s", p, st)
 		return
@@ -226,12 +241,19 @@ func c18Restart(tb drv.TB, rec *drv.Rec, sub string, c c18Case) {
 		ident[fmt.Sprintf("%x", cid)] = k
 	}
 	var probe []dOp
+	expectAcks := 0
 	for _, b := range want {
 		k := ident[b.CID]
 		ip := netip.MustParseAddr(b.IP)
 		led.holder[ip] = k
 		led.may[k] = ip
 		probe = append(probe, dOp{K: "request", C: k, Kind: "renew", Req: "current"})
+		// a station captured after its lease was acknowledged holds an address of the other subnet: its renewal is
+		// NAKed by design (C12); every other binding must be renewed
+		nf := cfg2.netfilter().Masked()
+		if !capturedMAC[dClients[k].mac] || (nf.Contains(ip) && ip != nf.Addr() && ip != bcastOf(nf)) {
+			expectAcks++
+		}
 	}
 	if len(want) > 0 {
 		free := -1
@@ -254,12 +276,13 @@ func c18Restart(tb drv.TB, rec *drv.Rec, sub string, c c18Case) {
 	var res dhcpResult
 	res.Served = map[int]bool{}
 	acks := 0
-	ph := dhcpHistory{Cfg: c.Hist.Cfg, Ops: probe}
+	ph := dhcpHistory{Cfg: cfg2, Ops: probe}
 	runDHCPOn(tb, rec, sub, ph, dhcpOracles{C11: true, C12: true, AfterAck: func(int, *dLedger) { acks++ }}, env, &res, led)
-	if acks != len(want) {
-		rec.Violation(tb, sub, "c18-renew-after-restart", c, "%d of %d renewals were acknowledged after the restart (bindings %v)", acks, len(want), want)
+	if acks < expectAcks || (!c.KeepCapture && acks != len(want)) {
+		rec.Violation(tb, sub, "c18-renew-after-restart", c, "%d of %d renewals were acknowledged after the restart, %d expected (bindings %v, captured stations restored: %v)", acks, len(want), expectAcks, want, c.KeepCapture)
 		return
 	}
+	rec.Class(fmt.Sprintf("restart keep-capture=%v captured-stations=%d", c.KeepCapture, len(capturedMAC)))
 	if len(want) >= 2 {
 		rec.NonTrivial(drv.HashJSON(c.Hist), func() interface{} {
 			return map[string]interface{}{"history": dhcpHistString(c.Hist), "bindings": want}
@@ -458,7 +481,9 @@ func substValue(old byte, seed uint64, off, j int) byte {
 
 func TestC18(t *testing.T) {
 	rec := drv.For("C18", c18Rule)
-	drv.Prop(t, rec, "restart", 150, 8000, func(t *rapid.T) c18Case { return c18Case{Hist: genAckOnly(t)} },
+	drv.Prop(t, rec, "restart", 150, 8000, func(t *rapid.T) c18Case {
+		return c18Case{Hist: genAckOnly(t), KeepCapture: rapid.Bool().Draw(t, "keepCapture")}
+	},
 		func(tb drv.TB, c c18Case) { c18Restart(tb, rec, "restart", c) })
 	drv.Prop(t, rec, "faults", 1, 10, func(t *rapid.T) c18Case {
 		return c18Case{Hist: genAckOnly(t), Seed: rapid.Uint64().Draw(t, "seed")}
